@@ -190,7 +190,9 @@ def part_multi(ctx, helper, root):
                 if a.get("is_success") == "true":
                     ok.add(a.get("certificate_path"))
             return len(ok) >= sc["k"] - len(sc["failing"])
-        done = flow.wait_for(lambda: good_done() or not dmn.alive(), 60)
+        done = flow.wait_progress(lambda: good_done() or not dmn.alive(),
+                                  lambda: len([e for e in helper_ca.log if e.get("kind") == "req" and "fail" not in str(e.get("payload", ""))]),
+                                  idle=60, cap=600)
         # let the failing ones go round at least twice
         flow.wait_for(lambda: len([p for p in flow.post_ops(log) if flow.hook_args(p).get("is_success") == "false"])
                       >= 2 * len(sc["failing"]) or not dmn.alive(), 12)
